@@ -2,9 +2,9 @@ SPECIFICATION Spec
 CONSTANTS
   ServerUnit = "utf16"
   UnitNames = {"a", "eacute", "han", "emoji", "nl", "crlf"}
-  MaxUnits = 3
-  MaxLen = 4
-  MaxNotifs = 3
+  MaxUnits = 2
+  MaxLen = 3
+  MaxNotifs = 2
   MaxBatch = 2
   MaxChan = 1
   Lockstep = TRUE
@@ -18,6 +18,4 @@ INVARIANTS
   TypeOK
   InSync
   QuiescentAgree
-  RoundTrip
-  PosRoundTrip
   ReportsFaithful
